@@ -5,6 +5,15 @@ V = os.path.dirname(os.path.dirname(os.path.abspath(__file__)))
 props = [json.loads(l) for l in open(os.path.join(V, "properties.jsonl"))]
 
 CLAIMED = {
+ "C06": dict(cat="exploration", tech="boundary-value field and truncation mutants (FieldMut.tla) of PE/ELF/.NET/Mach-O/DEX seeds scanned under ASan/UBSan with every module; scan contract judged by FieldMut!ModScanOK in TLC",
+   text="A TLA+ specification cannot establish that C code stays inside its buffers; it contributes the contract of a scan for every input (success, one import and one imported message per module, finished) and the definition of the mutant space: every byte position of every seed as a potential offset/size/count field of width 1/2/4/8 in both byte orders set to boundary values relative to the file length, and every truncation. Each mutant is scanned by a sanitizer-built driver with a rule set calling every function of every module while the imported-module callback walks the whole object tree.",
+   ref="5 C06, 6", note="exploration: a removed bounds check is detected iff a scheduled mutant reaches it; structure-aware pairs of fields (e.g. an export table placed at the end of the file) are not generated yet."),
+ "C09": dict(cat="model_checking", tech="TLC model checking of SigHandler.tla (all interleavings) + ThreadSanitizer runs whose per-thread traces are validated independently against ScanTrace.tla and whose hook-H5 event order is validated against SigHandler!HookTraceOK",
+   text="SigHandler.tla has one action per statement between lock operations of YR_TRYCATCH; TLC checks HandlerCoversBody / CountExact / InstalledIffUsed for 3 threads x 2 scans and termination (the count-inside-if variant violates them). A TSan-built multi-threaded driver runs 2-32 threads over one shared rule set (own scanners and the rules-level wrapper, memory and memory-mapped files, abort/error replies, per-scanner external definitions); each thread's recorded trace must be accepted by ScanTrace.tla on its own (= it reports what it would report alone); the use-count events recorded under the library's mutex must replay the model; a timeout-privacy run checks that sub-second scans with 8 s timeouts never time out beside 23 busy threads.",
+   ref="5 C09, 4.11", note="OS schedules are sampled, not enumerated; hook H5 (YARA_VERIF)."),
+ "C18": dict(cat="model_checking", tech="TLC model checking of CliQueue.tla (safety, deadlock freedom, termination under weak fairness) + hook-H6 queue traces judged by CliQueue!QueueTraceOK + output-multiset comparison of yara -p N against per-file single-threaded runs, yarac/-C/-d forms, exit status",
+   text="CliQueue.tla models the ring of Q+1 slots, head/tail, mutex, the two counting semaphores and the finish tokens, one action per statement; TLC checks NoSlotOverwritten / AtMostOnce / ExactlyOnce / MutexOK and Termination for 3 consumers, 2 slots, 5 files (too few finish tokens violates Termination, no mutex violates AtMostOnce). The real tool, built with a 2-slot queue under ThreadSanitizer, scans generated trees with 1-32 threads and 6-10 option sets; its queue events (taken under queue_mutex) must be FIFO/exactly-once per the model and its output multiset must equal the union of single-file runs; compiled rules with externals at either stage must print what source rules print; exit status non-zero iff an error was reported.",
+   ref="5 C18, 4.11", note="-l excluded (schedule-dependent by definition); hook H6 (YARA_VERIF) and -DMAX_QUEUED_FILES=2."),
  "C07": dict(cat="exploration", tech="grammar-aware token mutation of rule sources compiled under ASan; every compile call judged by TLC against ApiLifecycle!CompileOK (TLA+ contract); lifecycle model-checked",
    text="ApiLifecycle.tla states the compile contract (ret > 0 iff an error callback with a message was delivered; ret = number of errors) and the object life cycle (model-checked: every outcome leaves the objects destroyable). TokenMut enumerates for every token position of every seed deletion, duplication, truncation, swap, replacement/insertion of a token of each class and character damage inside the token, plus 40 oversize/limit/include/strict-escape families; each mutant is compiled through add_string/add_file/add_fd/add_bytes in a process that also holds a healthy compiler, rule set and scanner which are re-checked; heap growth after destroying failed compilers is a violation.",
    ref="5 C07, 6", note="memory safety over all byte strings is not decidable by a TLA+ spec: observed through ASan/UBSan where a scheduled mutant reaches the fault. Errors raised at end of input carry line 0 (accepted, see DESIGN corrections)."),
@@ -89,6 +98,6 @@ def main():
     json.dump(m, open(os.path.join(V, "MANIFEST.json"), "w"), indent=1)
 
 NA = {}
-HOOK_COMMITS = ["f6278db"]
+HOOK_COMMITS = ["f6278db", "770d949", "e0f0736"]
 if __name__ == "__main__":
     main()
